@@ -53,6 +53,7 @@ class Runner:
 
     def __init__(self, ctx):
         self.ctx = ctx
+        self.fired = []      # per step: the callback at which the injected failure was raised (None: not reached)
 
     def run(self, steps, fclass=None):
         """steps: list of (req, fault or None).  Returns list of (outcome, trace, snapshot) and the model requests."""
@@ -66,6 +67,7 @@ class Runner:
                     w.store.fault_class = S.FAULT_CLASSES[(fclass if fclass is not None else fault + i + len(steps) + len(json.dumps(req, sort_keys=True, default=str))) % len(S.FAULT_CLASSES)]
                 out, tr = w.request(req, None if fault is None else fault + 1)
                 res.append([norm_out(out), tr, w.snapshot()])
+                self.fired.append(w.fired)
             return res, mreqs
         finally:
             w.close()
@@ -125,7 +127,8 @@ def check_probe(ctx, prefix, req, fault, label, retry_req=None, second_fault=Non
     if second_fault is not None:
         steps.append((req, second_fault))
     steps.append((retry_req or req, None))
-    res, mreqs = Runner(ctx).run(steps, fclass)
+    runner = Runner(ctx)
+    res, mreqs = runner.run(steps, fclass)
     mod = ctx.model.call("faultflow_run", {"ops": mreqs})
     impl = [[o, tr, impl_snapshot(s)] for o, tr, s in res]
     modl = [[norm_out(o), tr, model_snapshot(s)] for o, tr, s in mod]
@@ -141,6 +144,9 @@ def check_probe(ctx, prefix, req, fault, label, retry_req=None, second_fault=Non
         if out[0] == "raised":
             if out[1] != fault:
                 ctx.violation("C19:fault-index", "the failure surfaced at a different callback than the one that failed", case)
+        elif runner.fired[n] is not None:
+            ctx.violation("C19:fault-swallowed:%s:%s" % (req["kind"], runner.fired[n]), "a storage operation failed during the request and the failure did not "
+                          "surface to the caller (the request was answered with %s)" % out[0], case)
         else:
             # the fault point lies beyond the callbacks this request makes
             ctx.count("fault-beyond-callbacks")
